@@ -385,9 +385,9 @@ class Evaluator:
             for f in pat["fields"]:
                 sub = None
                 if val is not None and not is_form(val) and val[0] == "obj":
-                    sub = ("obj", f"{val[1]}.{f.get('name')}")
+                    sub = ("obj", f.get("name") if val[1] == "self" else f"{val[1]}.{f.get('name')}")  # as a field read would name it
                 elif val is not None and not is_form(val) and val[0] == "struct" and isinstance(val[1], dict):
-                    sub = val[1].get(f.get("name"))
+                    sub = self._field(val, f.get("name"))
                 elif is_form(val) and len(val) == 1 and ONE not in val and list(val.values())[0] == 1:
                     sub = ("obj", f"{list(val)[0]}.{f.get('name')}")
                 self._bind(f["pat"], sub, env, counter)
